@@ -1,6 +1,7 @@
 (* Props/C18.v — property C18: the state-machine engine keeps one consistent current state. *)
 From SG Require Import Base.Prelude Spec.StateChart Model.StateMachine Gen.Machines.
-From SG Require Import Proofs.SmProofs.
+From SG Require Import Proofs.SmProofs Proofs.SmHier.
+From Coq Require Import Lia.
 Open Scope nat_scope.
 
 (* any machine, any handlers, any state: a request that is unknown or not allowed in the current state
@@ -18,6 +19,26 @@ Theorem C18_flat_nested_consistent : forall m h os, flat m -> trans_in_range m -
   forall fuel st name, inv m st -> snd (perform m h os fuel st name) = false -> inv m (fst (perform m h os fuel st name)).
 Proof. exact flat_nested_consistent. Qed.
 Print Assumptions C18_flat_nested_consistent.
+
+(* any HIERARCHICAL machine (any forest in which parents are declared before their children, any depth), callbacks that
+   request nothing: every allowed request succeeds, reaches its destination, and afterwards exactly the destination and
+   its ancestors are active - for every state that had exactly the current state and its ancestors active *)
+Theorem C18_hierarchical_consistent : forall m h os, wfp (m_parent m) -> (forall e, h e = []) ->
+  forall fuel st name srcs dst,
+  find_trans m name = Some (srcs, dst) -> existsb (Nat.eqb (cur st)) srcs = true -> dst < nstates m -> act_ok m st ->
+  exists st', perform m h os (S fuel) st name = (st', false) /\ cur st' = dst /\ act_ok m st'.
+Proof. intros m h os W Hq fuel st name srcs dst. exact (hierarchical_consistent m W h os Hq fuel st name srcs dst). Qed.
+Print Assumptions C18_hierarchical_consistent.
+
+(* the shipped hierarchical machines are in its domain *)
+Example C18_hierarchical_in_domain :
+  wfp (m_parent communication_machine) /\ wfp (m_parent connection_machine) /\
+  act_ok communication_machine (start_state communication_machine communication_initial).
+Proof.
+  split; [apply forest_ok_wfp; reflexivity|]. split; [apply forest_ok_wfp; reflexivity|].
+  split; [vm_compute; lia|]. split; [reflexivity|]. intros i Hi.
+  do 9 (destruct i as [|i]; [reflexivity|]). vm_compute in Hi. lia.
+Qed.
 
 (* the three shipped machines (regenerated from the source on every run): in every state, every request -
    each transition of the table and an unknown one - gets the reference verdict, reaches exactly the
